@@ -101,6 +101,28 @@ impl IpcReceiverSet {
     { unimplemented!() }
 }
 
+pub struct IpcReceiver<T> { pub _p: PhantomData<T> }      // IpcReceiver<()>: the receiving end of the wake-up channel
+
+pub open spec fn fresh_world(w: W) -> bool {
+    w.live == Set::<u64>::empty() && w.issued == Set::<u64>::empty() && w.delivered == Seq::<(u64, int)>::empty()
+    && w.calls == Seq::<(u64, int)>::empty() && w.credit == 0 && !w.acked
+}
+impl IpcReceiverSet {
+    // IpcReceiverSet::new().  Assumption: creating the epoll instance succeeds (the code unwrap()s it)
+    #[verifier::external_body]
+    pub fn new(Tracked(w): Tracked<&mut W>) -> (r: Result<IpcReceiverSet, IoError>)
+        ensures r is Ok, *final(w) == *old(w)
+    { unimplemented!() }
+    // add of the wake-up receiver: the id under which wake-ups will be reported.  Assumption: registration succeeds (unwrap()ed)
+    #[verifier::external_body]
+    pub fn add(&mut self, receiver: IpcReceiver<()>, Tracked(w): Tracked<&mut W>) -> (r: Result<u64, IoError>)
+        ensures
+            r matches Ok(id) && !old(w).issued.contains(id) && final(w).wakeup == id
+                && final(w).live == old(w).live.insert(id) && final(w).issued == old(w).issued.insert(id),
+            final(w).delivered == old(w).delivered, final(w).calls == old(w).calls, final(w).credit == old(w).credit,
+            final(w).acked == old(w).acked, final(w).handlers_at_ack == old(w).handlers_at_ack,
+    { unimplemented!() }
+}
 impl MsgReceiver {
     // crossbeam Receiver::recv (blocking).  Pairing assumption (proved for the proxy side in add_route /
     // shutdown, which send one RouterMsg per wake-up under one mutex): a reported wake-up is matched by a message.
